@@ -12,10 +12,10 @@
 -/
 import CB.Driver.Util
 import CB.Model.Monty
-namespace CB
-open CB.Monty
+namespace CB.Monty
+open CB
 
-private def decArgs (l : List String) : Option (List Nat) := l.mapM String.toNat?
+def decArgs (l : List String) : Option (List Nat) := l.mapM String.toNat?
 
 /-- one history step: `name[.form],args` → `MontyOp` (the `.form` suffix names the Rust surface form). -/
 def parseStep (s : String) : Option MontyOp :=
@@ -47,14 +47,14 @@ def parseStep (s : String) : Option MontyOp :=
       | "copy", some [i, j] => some (.copyFrom i j)
       | _, _ => none
 
-private def handlesOk (len : Nat) : MontyOp → Bool
+def handlesOk (len : Nat) : MontyOp → Bool
   | .add i j | .sub i j | .mul i j | .addAssign i j | .subAssign i j | .mulAssign i j
   | .select i j _ | .copyFrom i j => i < len && j < len
   | .neg i | .double i | .square i | .div2 i | .squareAssign i | .div2Assign i => i < len
   | .conv => 0 < len
   | _ => true
 
-private def kindInit (kind : String) (ms : List Nat) : Option (Rep × Params) :=
+def kindInit (kind : String) (ms : List Nat) : Option (Rep × Params) :=
   match kind with
   | "dyn" => some (.dyn, paramsNew ms)
   | "dynv" => some (.dyn, paramsNewVartime ms)
@@ -64,7 +64,7 @@ private def kindInit (kind : String) (ms : List Nat) : Option (Rep × Params) :=
   | _ => none
 
 /-- run the history on the limb model, one output token per step. -/
-private def histL1 (st : State) : List MontyOp → List String → Option (List String)
+def histL1 (st : State) : List MontyOp → List String → Option (List String)
   | [], acc => some acc.reverse
   | op :: ops, acc =>
     if !handlesOk st.store.length op then none else
@@ -74,7 +74,7 @@ private def histL1 (st : State) : List MontyOp → List String → Option (List 
     histL1 st' ops (s!"{limbsHex v}:{limbsHex (opRetrieve st' v)}" :: acc)
 
 /-- the same history on residues. -/
-private def histL0 (n m : Nat) (sp : List Nat) (len : Nat) : List MontyOp → List String → List String
+def histL0 (n m : Nat) (sp : List Nat) (len : Nat) : List MontyOp → List String → List String
   | [], acc => acc.reverse
   | op :: ops, acc =>
     let idx := match op with
@@ -86,15 +86,20 @@ private def histL0 (n m : Nat) (sp : List Nat) (len : Nat) : List MontyOp → Li
     let x := sget sp' idx
     histL0 n m sp' sp'.length ops (s!"{limbsHex (canon n m x)}:{natToHex x}" :: acc)
 
-private def paramsTok (p : Params) : String :=
+def paramsTok (p : Params) : String :=
   s!"mod={limbsHex p.modulus} one={limbsHex p.one} r2={limbsHex p.r2} r3={limbsHex p.r3} k={natToHex p.modNegInv} lz={p.modLeadingZeros}"
 
 /-- `−m⁻¹ mod 2^(64 n)` by Newton doubling (value level; only used for the L0 of `c08.redc`). -/
-private def negInvFull (n m : Nat) : Nat :=
+def negInvFull (n m : Nat) : Nat :=
   let R := B ^ n
   let stp := fun x => (x * ((R + 2 - (m * x) % R) % R)) % R
   let x := (List.range 13).foldl (fun x _ => stp x) (m % R)
   (R - x) % R
+
+end CB.Monty
+
+namespace CB
+open CB.Monty
 
 def dispatchC08 : Dispatch := fun op args =>
   match op, args with
